@@ -332,7 +332,7 @@ macro_rules! combo {
           }));
           $sink.count(&format!("fits-mut:{}:{}", choice, a));
           if a == "panic" {
-            $sink.impl_failures.push(format!("fits-decoder-panic: {} u{} depth {} {} mutation {} bytes {}", q, w, d, fl, choice, hex(&b[..b.len().min(6000)])));
+            $sink.impl_failures.push(format!("fits-decoder-{}: {} u{} depth {} {} mutation {} bytes {}", panic_answer(), q, w, d, fl, choice, hex(&b[..b.len().min(6000)])));
           }
         }
         // ---------------- C12: mutated streaming-ASCII documents
@@ -353,7 +353,7 @@ macro_rules! combo {
           }));
           $sink.count(&format!("stream-mut:{}", a));
           if a == "panic" {
-            $sink.impl_failures.push(format!("stream-decoder-panic: {} u{} document {:?}", q, w, String::from_utf8_lossy(&b)));
+            $sink.impl_failures.push(format!("stream-decoder-{}: {} u{} document {:?}", panic_answer(), q, w, String::from_utf8_lossy(&b)));
           }
         }
       }
@@ -402,6 +402,7 @@ pub fn run(sink: &mut Sink, rng: &mut Rng, thorough: bool) {
 
 pub fn run_c12(sink: &mut Sink, rng: &mut Rng, thorough: bool) {
   all(sink, rng, thorough, true);
+  other_readers(sink, rng, thorough);
   // random bytes
   for _ in 0..(if thorough { 3000 } else { 500 }) {
     let n = rng.below(40) as usize;
@@ -414,14 +415,279 @@ pub fn run_c12(sink: &mut Sink, rng: &mut Rng, thorough: bool) {
       Err(_) => "err".to_string(),
     }));
     if a == "panic" {
-      sink.impl_failures.push(format!("json-decoder-panic: document {:?}", s));
+      sink.impl_failures.push(format!("json-decoder-{}: document {:?}", panic_answer(), s));
     }
     let a = guarded(AssertUnwindSafe(|| match read_fits(s.as_bytes()) {
       Ok(_) => "ok".to_string(),
       Err(_) => "err".to_string(),
     }));
     if a == "panic" {
-      sink.impl_failures.push(format!("fits-decoder-panic: random document {:?}", s));
+      sink.impl_failures.push(format!("fits-decoder-{}: random document {:?}", panic_answer(), s));
+    }
+  }
+}
+
+// ---------------------------------------------------------------- C12: card-level mutations, other readers
+
+/// Overwrite the value field (columns 11..30, right-justified like the writers do; strings start at
+/// column 11) of the first card named `key` at or after byte `from`. Returns false if there is no such card.
+fn set_card(buf: &mut [u8], from: usize, key: &str, value: &str) -> bool {
+  let mut pos = from / 80 * 80;
+  while pos + 80 <= buf.len() {
+    let card = &buf[pos..pos + 80];
+    if card.starts_with(key.as_bytes()) && (card[key.len()] == b' ' || card[key.len()] == b'=') {
+      for b in &mut buf[pos + 10..pos + 80] {
+        *b = b' ';
+      }
+      let v = value.as_bytes();
+      if value.starts_with('\'') || v.len() > 20 {
+        let n = v.len().min(70);
+        buf[pos + 10..pos + 10 + n].copy_from_slice(&v[..n]);
+      } else {
+        let start = pos + 30 - v.len();
+        buf[start..pos + 30].copy_from_slice(v);
+      }
+      return true;
+    }
+    if card.starts_with(b"END ") && pos > 2880 {
+      return false;
+    }
+    pos += 80;
+  }
+  false
+}
+
+const CARD_KEYS: [&str; 16] = [
+  "NAXIS1", "NAXIS2", "MOCORDER", "MOCORD_S", "MOCORD_T", "MOCORD_F", "TFORM1", "ORDERING", "MOCVERS", "MOCDIM", "PCOUNT", "GCOUNT",
+  "TFIELDS", "BITPIX", "NAXIS", "COORDSYS",
+];
+const CARD_VALUES: [&str; 22] = [
+  "0", "1", "2", "3", "4", "7", "8", "15", "16", "29", "30", "31", "32", "61", "62", "63", "64", "255", "256", "100000", "-1", "",
+];
+const CARD_STRS: [&str; 8] = ["'1I      '", "'1J      '", "'1K      '", "'K       '", "'NUNIQ   '", "'RANGE   '", "'X'", "'"];
+
+fn drive_all_readers(sink: &mut Sink, what: &str, b: &[u8]) {
+  use moc::deser::fits::multiordermap::from_fits_multiordermap;
+  use moc::deser::fits::skymap::from_fits_skymap;
+  use moc::storage::u64idx::U64MocStore;
+  use std::io::BufReader;
+  let store = U64MocStore::get_global_store();
+  let mut one = |name: &str, f: &mut dyn FnMut() -> bool| {
+    let r = std::panic::catch_unwind(AssertUnwindSafe(|| f()));
+    match r {
+      Ok(ok) => sink.count(&format!("reader:{}:{}", name, if ok { "ok" } else { "err" })),
+      Err(_) => {
+        sink.count(&format!("reader:{}:panic", name));
+        sink.impl_failures.push(format!("{}-{}: {} ({} bytes) {}", name, panic_answer(), what, b.len(), if b.len() <= 9000 { hex(b) } else { String::new() }));
+      }
+    }
+  };
+  one("fits", &mut || read_any_fits(b));
+  one("store-fits", &mut || match store.load_from_fits_buff(b) { Ok(i) => { let _ = store.to_ranges(i); let _ = store.drop(i); true } Err(_) => false });
+  one("mom", &mut || from_fits_multiordermap(BufReader::new(Cursor::new(b)), 0.0, 0.9, false, true, false, false).is_ok());
+  one("store-mom", &mut || match store.from_multiordermap_fits_file_content(b, 0.0, 0.9, false, false, true, false) { Ok(i) => { let _ = store.drop(i); true } Err(_) => false });
+  one("skymap", &mut || from_fits_skymap(BufReader::new(Cursor::new(b)), 0.0, 0.0, 0.9, false, true, false, false).is_ok());
+  one("store-skymap", &mut || match store.from_skymap_fits_file_content(b, 0.0, 0.0, 0.9, false, false, true, false) { Ok(i) => { let _ = store.drop(i); true } Err(_) => false });
+}
+
+/// Any MOC FITS file, ST included, fully consumed.
+fn read_any_fits(b: &[u8]) -> bool {
+  use moc::deser::fits::STMocType;
+  use moc::moc2d::RangeMOC2Iterator;
+  macro_rules! q {
+    ($mq:expr) => {
+      match $mq {
+        MocQtyType::Hpx(MocType::Ranges(it)) => { let _ = it.count(); true }
+        MocQtyType::Hpx(MocType::Cells(c)) => { let _ = c.into_cell_moc_iter().ranges().count(); true }
+        MocQtyType::Time(MocType::Ranges(it)) => { let _ = it.count(); true }
+        MocQtyType::Time(MocType::Cells(c)) => { let _ = c.into_cell_moc_iter().ranges().count(); true }
+        MocQtyType::Freq(MocType::Ranges(it)) => { let _ = it.count(); true }
+        MocQtyType::Freq(MocType::Cells(c)) => { let _ = c.into_cell_moc_iter().ranges().count(); true }
+        MocQtyType::TimeHpx(STMocType::V2(it)) => { let _ = it.into_range_moc2(); true }
+        MocQtyType::TimeHpx(STMocType::PreV2(it)) => { let _ = it.into_range_moc2(); true }
+      }
+    };
+  }
+  match from_fits_ivoa(Cursor::new(b)) {
+    Ok(MocIdxType::U16(mq)) => q!(mq),
+    Ok(MocIdxType::U32(mq)) => q!(mq),
+    Ok(MocIdxType::U64(mq)) => q!(mq),
+    Err(_) => false,
+  }
+}
+
+fn small_mom() -> Option<Vec<u8>> {
+  // the first rows of the real multi-order map shipped with the repository, with a consistent NAXIS2
+  let all = std::fs::read("/repo/resources/Skymap/bayestar.multiorder.fits").ok()?;
+  let (hlen, n1, _n2) = fits_structure(&all)?;
+  let rows = 200usize;
+  let mut b = all[..hlen].to_vec();
+  b.extend_from_slice(all.get(hlen..hlen + rows * n1 as usize)?);
+  while b.len() % 2880 != 0 { b.push(0); }
+  if !set_card(&mut b, 2880, "NAXIS2", &rows.to_string()) { return None; }
+  Some(b)
+}
+
+pub fn other_readers(sink: &mut Sink, rng: &mut Rng, thorough: bool) {
+  use moc::deser::fits::rangemoc2d_to_fits_ivoa;
+  use moc::moc2d::range::{RangeMOC2, RangeMOC2Elem};
+  // base documents: range FITS (u16/u64), NUNIQ FITS, ST FITS, small MOM, sky map
+  let mut bases: Vec<(String, Vec<u8>)> = Vec::new();
+  {
+    let m: RangeMOC<u64, Hpx<u64>> = mk_moc(5, &random_moc_ranges::<u64, Hpx<u64>>(rng, 5, 5));
+    let mut b = Vec::new();
+    (&m).into_range_moc_iter().to_fits_ivoa(None, None, &mut b).unwrap();
+    bases.push(("ranges-u64".into(), b));
+    let mut b = Vec::new();
+    (&m).into_range_moc_iter().cells().hpx_cells_to_fits_ivoa(None, None, &mut b).unwrap();
+    bases.push(("nuniq-u64".into(), b));
+    let m16: RangeMOC<u16, Time<u16>> = mk_moc(4, &random_moc_ranges::<u16, Time<u16>>(rng, 4, 4));
+    let mut b = Vec::new();
+    (&m16).into_range_moc_iter().to_fits_ivoa(None, None, &mut b).unwrap();
+    bases.push(("ranges-t16".into(), b));
+    let t: RangeMOC<u64, Time<u64>> = mk_moc(6, &random_moc_ranges::<u64, Time<u64>>(rng, 6, 3));
+    let st = RangeMOC2::new(6, 5, vec![RangeMOC2Elem::new(t, m.clone())]);
+    let mut b = Vec::new();
+    if rangemoc2d_to_fits_ivoa(&st, None, None, &mut b).is_ok() {
+      bases.push(("st-v2".into(), b));
+    }
+  }
+  if let Some(b) = small_mom() {
+    bases.push(("mom".into(), b));
+  } else {
+    sink.count("reader:mom-resource-missing");
+  }
+  if let Ok(b) = std::fs::read("/repo/resources/Skymap/gbuts_healpix_systematic.fits") {
+    bases.push(("skymap".into(), b));
+  }
+  // unmutated documents first (sanity of the harness: no panic expected)
+  for (name, b) in &bases {
+    drive_all_readers(sink, &format!("unmutated {}", name), b);
+  }
+  let n = if thorough { 400 } else { 60 };
+  for (name, base) in &bases {
+    let per = if name == "skymap" { n / 6 } else { n };
+    for _ in 0..per {
+      let mut b = base.clone();
+      let what;
+      match rng.below(10) {
+        0..=4 => {
+          // one header card set to a boundary value
+          let key = *rng.pick(&CARD_KEYS);
+          let val = if key == "TFORM1" || key == "ORDERING" || key == "COORDSYS" || (key == "MOCVERS" && rng.chance(1, 2)) { *rng.pick(&CARD_STRS) } else { *rng.pick(&CARD_VALUES) };
+          if !set_card(&mut b, 2880, key, val) { continue; }
+          what = format!("{}: card {} = {:?}", name, key, val);
+        }
+        5 | 6 => {
+          // data words set to boundary values (NUNIQ codes 0..3, beyond the last code, all ones, sign bit)
+          if let Some((hlen, n1, n2)) = fits_structure(&b) {
+            let words = ((n1 * n2) / 8).min(((b.len() - hlen.min(b.len())) / 8) as u64);
+            if words == 0 { continue; }
+            let k = rng.below(words) as usize;
+            let v: u64 = *rng.pick(&[0u64, 1, 2, 3, 4, 15, 16, u64::MAX, 1 << 63, (1 << 63) | 5, (4u64 << 58) + 1, 1 << 62]);
+            b[hlen + 8 * k..hlen + 8 * k + 8].copy_from_slice(&v.to_be_bytes());
+            what = format!("{}: data word {} = {:#x}", name, k, v);
+          } else { continue; }
+        }
+        7 => {
+          let cut = rng.below(b.len() as u64) as usize;
+          b.truncate(cut);
+          what = format!("{}: truncated at {}", name, cut);
+        }
+        8 => {
+          // a whole card blanked or replaced by END
+          let pos = 2880 + 80 * rng.below(30) as usize;
+          if pos + 80 > b.len() { continue; }
+          let endc = rng.chance(1, 2);
+          for (i, x) in b[pos..pos + 80].iter_mut().enumerate() { *x = if endc && i < 3 { b"END"[i] } else { b' ' }; }
+          what = format!("{}: card at {} {}", name, pos, if endc { "replaced by END" } else { "blanked" });
+        }
+        _ => {
+          let k = 1 + rng.below(6);
+          let lim = b.len().min(2880 * 3) as u64;
+          for _ in 0..k { let pos = rng.below(lim) as usize; b[pos] = rng.below(256) as u8; }
+          what = format!("{}: {} random header bytes", name, k);
+        }
+      }
+      drive_all_readers(sink, &what, &b);
+    }
+  }
+  giant_counts(sink, &bases, &std::env::temp_dir().join(format!("verif_c12_{}", std::process::id())));
+  let _ = std::fs::remove_dir_all(std::env::temp_dir().join(format!("verif_c12_{}", std::process::id())));
+  // text loaders of the store
+  let store = moc::storage::u64idx::U64MocStore::get_global_store();
+  let docs = ["0/12", "30/1", "0/5-3", "3/1-5 77", "hello", "", "1/0-3 2/1", "0/0-18446744073709551615", "t61/1 s3/2", "t0/ s0/", "t62/1 s3/1", "t3/9-2 s30/1",
+    "{\"0\":[12]}", "{\"30\":[1]}", "{\"3\":[1,1]}", "[]", "{", "[{\"t\":{\"3\":[1]},\"s\":{\"0\":[12]}}]", "[{\"t\":{\"62\":[1]},\"s\":{\"0\":[1]}}]"];
+  for d in docs {
+    let mut one = |name: &str, f: &mut dyn FnMut() -> Result<usize, String>| {
+      match std::panic::catch_unwind(AssertUnwindSafe(|| f())) {
+        Ok(Ok(i)) => {
+          // whatever is accepted must be usable
+          let usable = std::panic::catch_unwind(AssertUnwindSafe(|| { let _ = store.to_ascii_str(i, None); let _ = store.get_coverage_percentage(i); }));
+          if usable.is_err() {
+            sink.impl_failures.push(format!("store-{}-accepted-then-{}: document {:?}", name, panic_answer(), d));
+          }
+          let _ = store.drop(i);
+          sink.count(&format!("store-text:{}:ok", name));
+        }
+        Ok(Err(_)) => sink.count(&format!("store-text:{}:err", name)),
+        Err(_) => sink.impl_failures.push(format!("store-{}-{}: document {:?}", name, panic_answer(), d)),
+      }
+    };
+    one("smoc-ascii", &mut || store.load_smoc_from_ascii(d));
+    one("tmoc-ascii", &mut || store.load_tmoc_from_ascii(d));
+    one("fmoc-ascii", &mut || store.load_fmoc_from_ascii(d));
+    one("stmoc-ascii", &mut || store.load_stmoc_from_ascii(d));
+    one("smoc-json", &mut || store.load_smoc_from_json(d));
+    one("tmoc-json", &mut || store.load_tmoc_from_json(d));
+    one("stmoc-json", &mut || store.load_stmoc_from_json(d));
+  }
+}
+
+/// `verif-harness probe <reader> <file>`: one reader on one file, in its own process (so that an
+/// allocation failure, which aborts, can be observed by the parent). Exit 0 = value or error, 3 = panic.
+pub fn probe(reader: &str, path: &str) -> i32 {
+  use moc::deser::fits::multiordermap::from_fits_multiordermap;
+  use moc::deser::fits::skymap::from_fits_skymap;
+  use moc::storage::u64idx::U64MocStore;
+  use std::io::BufReader;
+  let b = match std::fs::read(path) { Ok(b) => b, Err(_) => return 2 };
+  let r = std::panic::catch_unwind(AssertUnwindSafe(|| match reader {
+    "fits" => { read_any_fits(&b); }
+    "store-fits" => { let _ = U64MocStore::get_global_store().load_from_fits_buff(&b); }
+    "mom" => { let _ = from_fits_multiordermap(BufReader::new(Cursor::new(&b)), 0.0, 0.9, false, true, false, false); }
+    "skymap" => { let _ = from_fits_skymap(BufReader::new(Cursor::new(&b)), 0.0, 0.0, 0.9, false, true, false, false); }
+    _ => {}
+  }));
+  if r.is_ok() { 0 } else { 3 }
+}
+
+/// Header counts far larger than the file: every reader must answer within a bounded address space
+/// (each probe runs in a child process limited to 3 GB; an abort on allocation is a failure).
+fn giant_counts(sink: &mut Sink, bases: &[(String, Vec<u8>)], dir: &std::path::Path) {
+  let exe = match std::env::current_exe() { Ok(e) => e, Err(_) => return };
+  let _ = std::fs::create_dir_all(dir);
+  for (name, base) in bases {
+    if name == "skymap" && base.len() > 200_000 {
+      // keep the probes cheap: header + first blocks of the sky map
+    }
+    for (key, val) in [("NAXIS2", "1000000000000"), ("NAXIS1", "1000000000000"), ("NAXIS2", "4000000000")] {
+      let mut b = base.clone();
+      if !set_card(&mut b, 2880, key, val) { continue; }
+      let path = dir.join(format!("giant_{}_{}.fits", name, key));
+      if std::fs::write(&path, &b).is_err() { continue; }
+      for reader in ["fits", "store-fits", "mom", "skymap"] {
+        let cmd = format!("ulimit -v 3000000; exec {} probe {} {}", exe.display(), reader, path.display());
+        let out = std::process::Command::new("sh").arg("-c").arg(&cmd).stderr(std::process::Stdio::piped()).stdout(std::process::Stdio::null()).output();
+        let (code, err) = match out { Ok(o) => (o.status.code().unwrap_or(-1), String::from_utf8_lossy(&o.stderr).to_string()), Err(_) => (-2, String::new()) };
+        sink.count(&format!("giant:{}:{}", reader, match code { 0 => "answered", 3 => "panic", _ => "aborted" }));
+        if code == 3 {
+          sink.impl_failures.push(format!("{}-panic-on-giant-count: {} with {} = {}", reader, name, key, val));
+        } else if code != 0 {
+          let first = err.lines().next().unwrap_or("").to_string();
+          sink.impl_failures.push(format!("{}-allocation-from-header-count: {} with {} = {} (child exit {}; {})", reader, name, key, val, code, first));
+        }
+      }
     }
   }
 }
